@@ -4,6 +4,8 @@
 (* by the real parser + interpreter, recorded as                            *)
 (*   st    "ok" | "fail" (a MesonException / loop-control escape) |         *)
 (*         "internal:<Exception>"                                            *)
+(*   files, subs  build files of sub-directories / subprojects used by       *)
+(*         subdir() and subproject(): <<path or name, tokens>>               *)
 (*   vars  the variable store afterwards (also after a failure), as         *)
 (*         <<name code points, value>> pairs                                 *)
 (* The reference outcome is Parse + Run of MesonEval from the same initial  *)
@@ -22,11 +24,19 @@ vars == <<i, done>>
 V(c, clause, note) == [id |-> c.id, clause |-> clause, note |-> note]
 PairSet(s) == { <<s[j][1], s[j][2]>> : j \in 1..Len(s) }
 
+Toks(ix) == [j \in 1..Len(ix) |-> Alphabet[ix[j] + 1]]
+\* build files of sub-directories and subprojects of this case: <<name, token indices>>
+ParsedTable(tbl) == [j \in 1..Len(tbl) |-> <<tbl[j][1], Parse(Toks(tbl[j][2]))>>]
+AllOk(pt) == \A j \in 1..Len(pt) : pt[j][2].ok
+Trees(pt) == [j \in 1..Len(pt) |-> <<pt[j][1], pt[j][2].node>>]
+
 Judge(c) ==
-    LET raw == [j \in 1..Len(c.t) |-> Alphabet[c.t[j] + 1]]
-        p == Parse(raw)
+    LET p == Parse(Toks(c.t))
+        pf == ParsedTable(c.files)
+        ps == ParsedTable(c.subs)
     IN IF ~p.ok THEN (IF c.st = "ok" THEN V(c, "ValueButReferenceRejectsSyntax", "") ELSE V(c, "ok", ""))
-       ELSE LET r == Run(p.node, Env0) IN
+       ELSE IF ~AllOk(pf) \/ ~AllOk(ps) THEN V(c, "ok", "a sub-file does not parse: outside this model")
+       ELSE LET r == Run(Inline(p.node, Trees(pf), Trees(ps)), Env0) IN
             IF r.sig = "err" /\ r.code = 3 THEN V(c, "ok", "unspecified")
             ELSE IF r.sig = "err" THEN
                  (IF c.st = "ok" THEN V(c, IF r.code = 2 THEN "ValueButReferenceFails:BoolUsedAsInt" ELSE "ValueButReferenceFails", ToString(r.env))
